@@ -715,6 +715,7 @@ func init() {
 			c.WhoWrites("C11")
 			c.BadgerBufferDiscipline("C11")
 			c.DecodeFreshTarget("C11")
+			c.SameStore("C11")
 			c.ImportRules("C10") // the round trip ends in the import command
 		},
 		Explanation: "Writer/reader agreement decided structurally: for both record types the encoder and decoder have inverse layouts (version byte, length, offsets, widths, byte order, field order, every field present); the non-binary arm gob-decodes into the receiver and the legacy field names still exist; the export has an arm for every action byte used by the record keys, fails on unknown bytes, copies each value from the state field of the same meaning and starts from -1; the command-level export and import tables are inverse with the EIP-3076 names and omit/skip exactly -1; restart retention = synchronous committed writes (C03 group). See DESIGN.md §5 C11.",
